@@ -1,16 +1,164 @@
 """Harness self-tests (never property verdicts): setup, determinism, sensitivity."""
+import json
+import os
+import shutil
+import subprocess
 import sys
+import tempfile
+import time
+
+from . import boot
+from .engine import PROPS
+
+CHECK = os.path.join(boot.VERIF_DIR, "check")
+
+
+def scratch_root():
+    for d in (os.environ.get("VERIF_SCRATCH"), "/dev/shm", tempfile.gettempdir()):
+        if d and os.path.isdir(d) and os.access(d, os.W_OK):
+            return d
+    return tempfile.gettempdir()
+
+
+def make_scratch(patch_path):
+    """Copy /repo's anytree package to a scratch dir outside /repo and /verif and apply a patch."""
+    d = tempfile.mkdtemp(prefix="anytree-scratch-", dir=scratch_root())
+    shutil.copytree(os.path.join(boot.anytree_src(), "anytree"), os.path.join(d, "anytree"),
+                    ignore=shutil.ignore_patterns("__pycache__", "*.pyc"))
+    if patch_path:
+        p = subprocess.run(["patch", "-p1", "-s", "-f", "-d", d, "-i", os.path.abspath(patch_path)],
+                           stdout=subprocess.PIPE, stderr=subprocess.STDOUT)
+        if p.returncode != 0:
+            shutil.rmtree(d, ignore_errors=True)
+            raise RuntimeError("patch %s does not apply: %s" % (patch_path, p.stdout.decode()))
+    return d
+
+
+def run_check(prop, src, tier="quick", runs=None, seed=None, extra_env=None):
+    env = dict(os.environ)
+    env["ANYTREE_SRC"] = src
+    env["VERIF_EVIDENCE_DIR"] = os.path.join(src, "evidence")
+    env["VERIF_REPLAY_DIR"] = os.path.join(src, "replays")
+    if seed is not None:
+        env["VERIF_SEED"] = str(seed)
+    env.update(extra_env or {})
+    cmd = [sys.executable, "-B", CHECK, prop, "--tier", tier]
+    if runs:
+        cmd += ["--runs", str(runs)]
+    t0 = time.time()
+    p = subprocess.run(cmd, stdout=subprocess.PIPE, stderr=subprocess.STDOUT, env=env, cwd=boot.VERIF_DIR, timeout=3600)
+    out = p.stdout.decode("utf-8", "replace")
+    viol = [ln for ln in out.splitlines() if ln.startswith("VIOLATION ")]
+    msg = [ln for ln in out.splitlines() if ln.startswith("violation: ")]
+    return {"exit": p.returncode, "violations": viol, "messages": msg, "wall": round(time.time() - t0, 1), "out": out}
+
+
+def patch_cmd(args, seed):
+    """./check selftest-patch <patch> [--props C01,C02]: run the named (or all) checks against a patched scratch copy."""
+    props = os.environ.get("VERIF_PROPS")
+    props = props.split(",") if props else sorted(PROPS)
+    src = make_scratch(args.path)
+    rc = 0
+    try:
+        for prop in props:
+            r = run_check(prop, src, tier=args.tier, runs=args.runs)
+            first = (r["messages"] or [""])[0][:300]
+            print("%s exit=%d %.1fs %s" % (prop, r["exit"], r["wall"], first), flush=True)
+            if r["exit"] == 2:
+                print(r["out"][-3000:])
+            rc = max(rc, r["exit"])
+    finally:
+        shutil.rmtree(src, ignore_errors=True)
+    return rc
+
+
+def mutants_cmd(args, seed):
+    mdir = os.path.join(boot.VERIF_DIR, "mutants")
+    index = json.load(open(os.path.join(mdir, "index.json")))
+    only = os.environ.get("VERIF_MUTANTS")
+    survivors, errors = [], []
+    rows = []
+    for m in index:
+        if only and m["id"] not in only.split(","):
+            continue
+        patch = os.path.join(mdir, m["id"] + ".patch")
+        try:
+            src = make_scratch(patch)
+        except RuntimeError as exc:
+            errors.append((m["id"], str(exc)))
+            print("MUTANT %-34s PATCH DOES NOT APPLY (regenerate with tools/make_mutants.py)" % m["id"], flush=True)
+            continue
+        try:
+            caught_by = []
+            missed_by = []
+            for prop in m["props"]:
+                if prop not in PROPS:
+                    continue
+                r = run_check(prop, src, tier=args.tier, runs=args.runs)
+                if r["exit"] == 1 and r["violations"]:
+                    caught_by.append(prop)
+                elif r["exit"] == 2:
+                    errors.append((m["id"], prop + ": harness error\n" + r["out"][-1500:]))
+                    missed_by.append(prop + "(harness error)")
+                else:
+                    missed_by.append(prop)
+            status = "caught" if caught_by and not missed_by else ("PARTLY" if caught_by else "SURVIVED")
+            if not caught_by:
+                survivors.append(m["id"])
+            rows.append({"id": m["id"], "caught_by": caught_by, "missed_by": missed_by, "note": m["note"]})
+            print("MUTANT %-34s %-8s caught by %s%s" % (m["id"], status, ",".join(caught_by) or "-", (" missed by " + ",".join(missed_by)) if missed_by else ""), flush=True)
+        finally:
+            shutil.rmtree(src, ignore_errors=True)
+    out = os.path.join(boot.VERIF_DIR, "mutants", "last_result.json")
+    with open(out, "w") as f:
+        json.dump({"tier": args.tier, "seed": seed, "rows": rows, "survivors": survivors}, f, indent=1)
+        f.write("\n")
+    print("selftest-mutants: %d mutants, %d not caught by any targeted check%s" % (len(rows), len(survivors), (": " + ", ".join(survivors)) if survivors else ""))
+    for mid, err in errors:
+        print("ERROR %s: %s" % (mid, err))
+    return 0 if not survivors and not errors else 3
+
+
+def determinism_cmd(args, seed):
+    """Each property: the first N runs of several seeds, executed at two worker
+    counts and under two PYTHONHASHSEED values in fresh interpreters; all digests must agree."""
+    n = args.runs or 96
+    seeds = [seed, seed + 1, 7]
+    bad = 0
+    for prop in sorted(PROPS):
+        for sd in seeds:
+            variants = []
+            for workers, hashseed in ((16, "0"), (2, "12345"), (8, "random")):
+                env = dict(os.environ)
+                env["PYTHONHASHSEED"] = hashseed
+                env["VERIF_SEED"] = str(sd)
+                p = subprocess.run([sys.executable, "-B", CHECK, "digests", prop, "--tier", args.tier, "--runs", str(n), "--workers", str(workers)],
+                                   stdout=subprocess.PIPE, stderr=subprocess.PIPE, env=env, cwd=boot.VERIF_DIR, timeout=1800)
+                if p.returncode != 0:
+                    print("HARNESS-ERROR: digests %s failed: %s" % (prop, p.stderr.decode()[-2000:]))
+                    return 2
+                variants.append(json.loads(p.stdout.decode().strip().splitlines()[-1]))
+            diff = [r for r in variants[0] if len(set(v.get(r) for v in variants)) != 1]
+            print("determinism %s seed=%d: %d runs x 3 configurations, %d mismatches" % (prop, sd, len(variants[0]), len(diff)), flush=True)
+            if diff:
+                bad += 1
+                print("  mismatching runs: %r" % diff[:10])
+    return 2 if bad else 0
 
 
 def main(what, args, seed):
     if what == "selftest-setup":
-        from . import boot
-
         boot.setup(0)
         import anytree  # noqa: F401
         import six  # noqa: F401
 
         print("setup ok: anytree from %s, python %s" % (boot.anytree_src(), sys.version.split()[0]))
         return 0
+    if what == "selftest-mutants":
+        return mutants_cmd(args, seed)
+    if what == "selftest-patch":
+        return patch_cmd(args, seed)
+    if what == "selftest-determinism":
+        return determinism_cmd(args, seed)
     print("unknown selftest %r" % what)
     return 2
